@@ -139,6 +139,7 @@ type oblResult struct {
 	Solvers   []string `json:"solvers"`
 	Millis    int64    `json:"solver_ms"`
 	Known     string   `json:"known_finding_region_excluded,omitempty"`
+	Bounded   bool     `json:"bounded_stand_in,omitempty"`
 }
 
 func (d *Driver) report() int {
@@ -167,7 +168,7 @@ func (d *Driver) report() int {
 	var slow []string
 	for _, n := range order {
 		qs := byName[n]
-		r := oblResult{Name: n, Clause: qs[0].Clause, Paths: len(qs), Discharged: true}
+		r := oblResult{Name: n, Clause: qs[0].Clause, Paths: len(qs), Discharged: true, Bounded: qs[0].Kind == "bounded"}
 		sv := map[string]bool{}
 		for _, q := range qs {
 			r.Millis += q.Millis
@@ -189,12 +190,22 @@ func (d *Driver) report() int {
 		r.Solvers = sortedKeys(sv)
 		results = append(results, r)
 	}
-	discharged := 0
+	// bounded stand-ins are reported, can raise a violation, and are never counted as proved
+	discharged, nProof, nBounded, boundedHeld := 0, 0, 0, 0
 	for _, r := range results {
+		if r.Bounded {
+			nBounded++
+			if r.Discharged {
+				boundedHeld++
+			}
+			continue
+		}
+		nProof++
 		if r.Discharged {
 			discharged++
 		}
 	}
+	d.nBounded, d.boundedHeld = nBounded, boundedHeld
 	// ----- verdict -----
 	exit := 0
 	prop := d.Prop
@@ -269,7 +280,11 @@ func (d *Driver) report() int {
 			knownLines = append(knownLines, l)
 		}
 	}
-	fmt.Printf("%s: %d obligations, %d discharged, %d queries, %d functions, %d cover probes, %.1fs\n", prop, len(results), discharged, len(d.queries), len(d.funcsDone), covers, time.Since(d.start).Seconds())
+	bnd := ""
+	if nBounded > 0 {
+		bnd = fmt.Sprintf(" (+ %d bounded stand-ins, %d held: not counted as proved)", nBounded, boundedHeld)
+	}
+	fmt.Printf("%s: %d obligations, %d discharged%s, %d queries, %d functions, %d cover probes, %.1fs\n", prop, nProof, discharged, bnd, len(d.queries), len(d.funcsDone), covers, time.Since(d.start).Seconds())
 	if d.Evidence != "" {
 		d.writeEvidence(prop, results, discharged, solverCount, totalMs, slow, knownLines, violations, covers)
 	}
@@ -382,8 +397,9 @@ func (d *Driver) writeEvidence(prop string, results []oblResult, discharged int,
 		"meta-arguments listed in DESIGN.md section 12 (structural induction over the run, PEG determinacy)",
 	}
 	cov := map[string]any{
-		"obligations":   len(results),
+		"obligations":   len(results) - d.nBounded,
 		"discharged":    discharged,
+		"bounded_stand_ins": map[string]any{"count": d.nBounded, "held": d.boundedHeld, "bound": boundedSCCBound, "note": "checked by running the real functions on every input within the bound against an independent oracle; labelled bounded, not counted in obligations/discharged"},
 		"queries":       len(d.queries),
 		"cover_probes":  covers,
 		"checker_cmd":   "bin/govc -prop " + prop + " -tier " + d.Tier + " -targets " + d.Targets,
